@@ -262,7 +262,31 @@ fn convert_case(ctx: &Ctx, st: &mut Stats, edges: &[(String, String)], undirecte
         args.push("--colors".into());
         args.push(k.to_string());
     }
-    let out = cli::run_fed(&ctx.bin("random_graph_gen"), &args, plan.stdin.as_deref(), &plan.feed, Some(&dir), None, Duration::from_secs(60));
+    // output: stdout, another file (through a symbolic link every other time), or — "convert in
+    // place" — the very file that is being converted
+    let out_mode = if mode == 0 { (csv.len() / 4 + colors.unwrap_or(0)) % 4 } else { 0 };
+    let in_path = plan.path_arg.clone().unwrap_or_default();
+    let out_path = match out_mode {
+        1 => Some(dir.join("converted.out").display().to_string()),
+        2 => Some(in_path.clone()),
+        3 => {
+            let link = dir.join("link to the input");
+            let _ = std::os::unix::fs::symlink(&in_path, &link);
+            Some(link.display().to_string())
+        }
+        _ => None,
+    };
+    if let Some(p) = &out_path {
+        args.push("-o".into());
+        args.push(p.clone());
+    }
+    st.bump(&format!("convert_output_mode_{}", out_mode));
+    let mut out = cli::run_fed(&ctx.bin("random_graph_gen"), &args, plan.stdin.as_deref(), &plan.feed, Some(&dir), None, Duration::from_secs(60));
+    if let Some(p) = &out_path {
+        if out.ok() {
+            out.stdout = std::fs::read(p).unwrap_or_default();
+        }
+    }
     let _ = std::fs::remove_dir_all(&dir);
     let case = || json!({"kind": "convert", "csv": csv, "undirected": undirected, "dot": dot, "colors": colors});
     let desc = format!("random_graph_gen --convert <{:?}>{}{}{}", csv.replace('\n', ";"), if undirected { " -u" } else { "" }, if dot { " -d" } else { "" }, colors.map(|k| format!(" --colors {}", k)).unwrap_or_default());
@@ -513,7 +537,7 @@ pub fn run(ctx: &Ctx) -> (Stats, Spec) {
     let mut st = crate::report::merge_all(parts);
     st.exhaustive.push("every request (V <= 6, E <= max+2, -u, --dot, stdout / -o) and --complete for V <= 6; --convert on all digraphs with <= 3 vertices; --colors k (k = 0..3) on all loop-free graphs with 2..4 vertices".into());
     let spec = Spec {
-        rule: "all (V in 0..6, E in 0..max+2, -u, --dot, stdout or -o) requests and boundary edge counts for V in {11, 17, 40}, feasible ones repeated 10 [quick] / 60 [thorough] times (every run is a fresh random sample; the number of distinct outputs seen is reported), --complete with and without an edge count, missing arguments; --convert (file to convert: a regular file, a named pipe or /dev/stdin) on every digraph with <= 3 vertices, random edge lists over 4-5 vertices, and (under -u) ordered pairs of distinct edges over five names of every family (a third of them [quick] / all [thorough]) (shuffled rows; exact duplicates and self-loops without -u; reversed pairs under -u), --colors 0..3 on every loop-free graph with 2..4 (thorough: sampled 5) vertices, with seven vertex-name families (names that collide under joining with '-', '_' or '.'; plain; one name a prefix of another: v1 / v10 / v1X, 1 / 10 / 100; names containing the colour suffix pattern), and --colors on generated complete graphs with 11-12 vertices. distinct = (request, output); non-trivial = 0 < E < max resp. non-empty input.".into(),
+        rule: "all (V in 0..6, E in 0..max+2, -u, --dot, stdout or -o) requests and boundary edge counts for V in {11, 17, 40}, feasible ones repeated 10 [quick] / 60 [thorough] times (every run is a fresh random sample; the number of distinct outputs seen is reported), --complete with and without an edge count, missing arguments; --convert (file to convert: a regular file, a named pipe or /dev/stdin; output to stdout, to another file, or IN PLACE onto the file being converted, directly or through a symbolic link) on every digraph with <= 3 vertices, random edge lists over 4-5 vertices, and (under -u) ordered pairs of distinct edges over five names of every family (a third of them [quick] / all [thorough]) (shuffled rows; exact duplicates and self-loops without -u; reversed pairs under -u), --colors 0..3 on every loop-free graph with 2..4 (thorough: sampled 5) vertices, with seven vertex-name families (names that collide under joining with '-', '_' or '.'; plain; one name a prefix of another: v1 / v10 / v1X, 1 / 10 / 100; names containing the colour suffix pattern), and --colors on generated complete graphs with 11-12 vertices. distinct = (request, output); non-trivial = 0 < E < max resp. non-empty input.".into(),
         assumptions: vec![
             "uniformity of the random sample is not claimed by the property and not tested".into(),
             "self-loops and exact duplicates are not given to --convert -u / --colors (their treatment is a convention the statement does not fix)".into(),
